@@ -801,6 +801,7 @@ func (v *vdrRun) loop() {
 			v.observe(false)
 			v.preFinal = v.snapshot(true)
 			v.collectPreNames(v.preFinal)
+			v.valueChecks(v.preFinal)
 			r.log("complete", "", string(st))
 			r.ps.VDRKill()
 			r.ps.VerifStorageBarrier()
